@@ -120,7 +120,7 @@ def judge(rep, prop, behaviours, trace, names, timeout=1700):
     return res
 
 
-def run_check(rep, tier, seed, replay, prop, names, nontrivial, rule, quick_num=500, thorough_num=5000):
+def run_check(rep, tier, seed, replay, prop, names, nontrivial, rule, quick_num=450, thorough_num=4000):
     """the pipeline shared by C08 and C09: design check -> simulate -> execute -> TLC judges -> evidence"""
     import random
     import time
@@ -166,6 +166,9 @@ def run_check(rep, tier, seed, replay, prop, names, nontrivial, rule, quick_num=
     depth = 16 if quick else 20
     sims = core.tlc_simulate('MC_Cleaner.tla', 'Sim_Cleaner_%s%s.cfg' % (prop, '' if quick else '_thorough'),
                              num, depth, seed, timeout=2400)
+    if prop == 'C08':
+        # a second family: no retention limits, so persistent readers are kept across the compactions
+        sims += core.tlc_simulate('MC_Cleaner.tla', 'Sim_Cleaner_C08_readers.cfg', num // 5, depth, seed + 1, timeout=1200)
     behaviours = [decorate(b, rng, i + 1) for i, b in enumerate(sims) if len(b) > 1]
     lap('simulation (%d behaviours)' % len(behaviours))
     # 3. execute on the real code, 4. judge with TLC
